@@ -5,12 +5,13 @@ from framework import coq_bs, coq_z, coq_list, coq_opt
 ID = 'C02'
 COQ_IMPORTS = ['G_gff', 'C02_Model']
 GENERATORS = ['gen_gff']
-RULE = ('three streams: (obj) abstract FeatureLists (1-4 features, 1-4 locations on any strand given in any order, attribute keys '
+RULE = ('four streams: (edit) features read from generated GFF text and then edited through ft.name / ft.id / ft.seqid / ft.type / '
+        'ft.meta.score / phase / evalue before the write-read-write cycles; (obj) abstract FeatureLists (1-4 features, 1-4 locations on any strand given in any order, attribute keys '
         'and values over printable ASCII + tab including tab ; = , % & space, list values, per-location attributes, optional '
         'score/phase/source/seqid/Name/ID at the _gff level and/or as Feature.meta aliases) written by sugar, read back, written '
         'again (3 writes); (text) GFF3 text rendered by an independent renderer (shuffled attribute order, locations of a split '
         'feature ascending/descending/interleaved, lower-case and superfluous percent escapes, blanks around keys/values, comments, '
-        '##FASTA tail) plus byte-level mutations of it, read by sugar and cycled; (xsv) FeatureLists through the real pandas '
+        '##FASTA tail) plus byte-level mutations of it, read by sugar and cycled; (xsv) FeatureLists (single, split, nested and overlapping locations) through the real pandas '
         'to_csv/read_csv for every selection/permutation of type,start,stop,len,strand and five separators. The Coq model decides '
         'domain membership (wf_C02); non-trivial = distinct case with a split feature, minus strand, reserved character, '
         'list value, per-location attribute or score/phase')
@@ -23,8 +24,9 @@ TRUSTED = ['urllib.parse.quote/unquote (modelled on ASCII, compared on every cas
 ASSUMPTIONS = ['Python str restricted to ASCII (code points < 128) in every field; raw text without carriage returns',
                'attribute keys non-empty, not starting with "_", not a public method name of Attr (open finding F20), not one of '
                'seqid/source/score/phase/type unless they hold the column value',
-               'round-trip clauses additionally assume: the first 5\'->3\' location of a feature has no attributes of its own '
-               '(PENDING FIX firstloc_overrides) and neighbouring features do not share (ID, type, seqid)',
+               'round-trip theorems additionally assume: the first 5\'->3\' location of a feature has no attributes of its own '
+               '(open finding F39 firstloc_overrides: such lists are generated, checked by the oracle and reported as KNOWN-FINDING), '
+               'no location-level seqid/type/ID, and neighbouring features do not share (ID, type, seqid)',
                'score literals of the form [-]d+.d+ with <= 15 digits and no redundant zeros (so that repr(float(tok)) == tok)']
 
 RESERVED_CHARS = '\t;=,%& '
@@ -133,6 +135,17 @@ def impl(case):
         return _cycle(_read(case['t'], case.get('_via', 'str')), case.get('_via', 'str'))
     if k == 'obj':
         return _cycle(build_fts(case['fts']), case.get('_via', 'str'))
+    if k == 'edit':
+        x = _read(case['t'], 'str')
+        for idx, key, val in case['edits']:
+            if len(x):
+                ft = x[idx % len(x)]
+                v = dec(val)
+                if key in ('name', 'id', 'seqid', 'type'):
+                    setattr(ft, key, v)               # the documented aliases ft.name, ft.id, ft.seqid, ft.type
+                else:
+                    ft.meta[key] = v
+        return _cycle(x, 'str')
     if k == 'xsv':
         from sugar import read_fts
         fts = build_fts(case['fts'])
@@ -201,6 +214,9 @@ def _model_term(case):
         return 'out (run_C02_text %s)' % coq_bs(case['t'])
     if k == 'obj':
         return 'out (run_C02_obj %s)' % coq_list([coq_feat(f) for f in case['fts']])
+    if k == 'edit':
+        eds = coq_list(['(%d%%nat, %s, %s)' % (i, coq_bs(key), coq_aval(v)) for i, key, v in case['edits']])
+        return 'out (run_C02_edit %s %s)' % (coq_bs(case['t']), eds)
     ks = coq_list([{'type': 'KType', 'start': 'KStart', 'stop': 'KStop', 'len': 'KLen', 'strand': 'KStrand'}[x] for x in case['keys']])
     return 'out (run_C02_xsv %s %s)' % (ks, coq_list([coq_feat(f) for f in case['fts']]))
 
@@ -223,10 +239,22 @@ def split_model(case, m):
 PANDAS_WORDS = {'na', 'n/a', 'nan', 'null', 'none', 'true', 'false', 'inf', 'infinity', '-inf', 'nat'}
 
 
+_DISAGREED = set()
+
+
+def _ckey(case):
+    import json
+    return json.dumps(case, sort_keys=True, default=str)
+
+
 def agree(case, implval, modelval):
     if isinstance(implval, dict) or isinstance(modelval, dict):
-        return isinstance(implval, dict) and isinstance(modelval, dict) and implval.get('e') == modelval.get('e')
-    return implval == modelval
+        ok = isinstance(implval, dict) and isinstance(modelval, dict) and implval.get('e') == modelval.get('e')
+    else:
+        ok = implval == modelval
+    if not ok:
+        _DISAGREED.add(_ckey(case))          # features() must not file a case under a known finding when the model differs too
+    return ok
 
 
 # ----------------------------------------------------------------------------- property oracle (independent of sugar and of the model)
@@ -276,6 +304,10 @@ def gid(f):
 
 
 def spec(case, got):
+    return _spec(case, got, False)
+
+
+def _spec(case, got, skip_firstloc):
     if case['_k'] == 'xsv':
         return spec_xsv(case, got)
     if isinstance(got, dict):
@@ -301,7 +333,7 @@ def spec(case, got):
             return 'coordinates %r for location %r' % (cols[3:7], l[:3])
         if re.search(r'[\s&]', cols[8]) or re.search(r'[\s;=,&]', cols[0] + cols[1]):
             return 'raw reserved character in %r' % (cols,)
-    if case['_k'] == 'text':
+    if case['_k'] in ('text', 'edit'):
         # the coordinates read are those of the file, shifted to 0-based half-open
         want = []
         for ln in case['t'].split('\n'):
@@ -321,10 +353,13 @@ def spec(case, got):
         # neighbouring features with one (ID, type, seqid) are one feature to the reader; otherwise what was read back is
         # normalised and the text is stable from the second write on
         return 'third write differs from the second'
-    nocols = all(k not in ('seqid', 'source', 'type', 'ID') for f in o0 for l in f[2] for k, _ in (l[3] or []))
-    if normalised and distinct and nocols:
+    nocols = all(k not in ('seqid', 'type', 'ID') for f in o0 for l in f[2] for k, _ in (l[3] or []))
+    # open finding F39 (firstloc_overrides): a first 5'->3' location with attributes of its own is inside the property's
+    # quantifier, so it is checked like every other list; features() files a case under F39 only if these clauses are
+    # the only ones that fail on it
+    if distinct and nocols and (normalised or not skip_firstloc):
         if w2 != w1:
-            return 'second write differs from the first'
+            return 'second write differs from the first' + ('' if normalised else ' (first location has attributes of its own)')
         if len(o1) != len(o0):
             return '%d features read back, %d written' % (len(o1), len(o0))
         for f0, f1 in zip(o0, o1):
@@ -377,7 +412,10 @@ def rstr(rng, maxlen=8, chars=VCHARS, minlen=0):
     n = rng.randint(minlen, maxlen)
     if rng.random() < 0.08:
         return rng.choice(['', ' ', '%', '%41', '%zz', ',', ';', '=', '\t', ' a ', 'a=b=c', '%2', '.', '..', '#', '##FASTA'])
-    return ''.join(rng.choice(chars) for _ in range(n))
+    v = ''.join(rng.choice(chars) for _ in range(n))
+    if rng.random() < 0.12:
+        v = rng.choice([' ', '\t', '  ', '\n', '']) + v + rng.choice([' ', '\t', ' \t', '\n', ''])    # leading / trailing white space
+    return v
 
 
 def rkey(rng, out_rate=0.01):
@@ -580,6 +618,19 @@ def gen_text(rng, in_domain=True):
     return {'_k': 'text', 't': render_text(rng, fts), '_via': 'file' if rng.random() < 0.1 else 'str'}
 
 
+def gen_edit(rng):
+    """features read from GFF text, then edited through the Feature aliases before they are written"""
+    base = gen_text(rng, in_domain=True)
+    edits = []
+    for _ in range(rng.choice([1, 1, 2, 3])):
+        key = rng.choice(['name', 'id', 'seqid', 'score', 'phase', 'evalue', 'type', 'name', 'score'])
+        val = {'name': lambda: rval(rng), 'id': lambda: [0, 'edited%d' % rng.randrange(3)], 'seqid': lambda: [0, rng.choice(['chrE', 'e 2;x'])],
+               'score': lambda: rscore(rng), 'phase': lambda: [3, rng.choice([0, 1, 2])], 'evalue': lambda: [0, rng.choice(['1e-9', '0.5'])],
+               'type': lambda: [0, rng.choice(TYPES)]}[key]()
+        edits.append([rng.randrange(4), key, val])
+    return {'_k': 'edit', 't': base['t'], 'edits': edits}
+
+
 def mutate_text(rng, case):
     t = case['t']
     if len(t) < 20:
@@ -604,7 +655,14 @@ def gen_xsv(rng):
         f = rfeature(rng, i)
         f['meta'] = [['type', [0, rng.choice(TYPES)]]] if rng.random() < 0.95 else []
         f['gff'] = None
-        locs = rlocs(rng, 1 if rng.random() < 0.8 else 2)
+        locs = rlocs(rng, 1 if rng.random() < 0.6 else rng.choice([2, 3]))
+        if len(locs) > 1 and rng.random() < 0.6:
+            # nested / overlapping parts: the extent is not given by the first and last location
+            a, b, sd = locs[0]
+            outer = [a - rng.choice([0, 5]), max(l[1] for l in locs) + rng.choice([1, 50]), sd]
+            locs.insert(rng.randrange(len(locs) + 1), outer)
+            if rng.random() < 0.5:
+                locs.append([outer[0] + 1, outer[0] + 2, sd])
         if rng.random() < 0.2:
             locs = [[a - 200, b - 200, s] for a, b, s in locs]
         f['locs'] = [l + [None] for l in locs]
@@ -624,7 +682,8 @@ def gen_xsv(rng):
 
 
 def gen_cases(rng, tier):
-    nobj, ntext, nmut, nxsv = (700, 500, 120, 180) if tier != 'thorough' else (10000, 7500, 1500, 1000)
+    nobj, ntext, nmut, nxsv = (600, 420, 100, 180) if tier != 'thorough' else (9000, 6500, 1200, 1000)
+    nedit = 200 if tier != 'thorough' else 2500
     cases = []
     for _ in range(nobj):
         cases.append(gen_obj(rng, in_domain=rng.random() < 0.9))
@@ -634,6 +693,8 @@ def gen_cases(rng, tier):
     cases += texts
     for _ in range(nmut):
         cases.append(mutate_text(rng, rng.choice(texts)))
+    for _ in range(nedit):
+        cases.append(gen_edit(rng))
     if tier == 'thorough':
         # every permutation of every admissible column selection, both formats
         import itertools
@@ -705,10 +766,17 @@ def features(case, got):
             for l in f['locs']:
                 for k, _ in (l[3] or []):
                     keys.add(k)
-    elif case['_k'] == 'text':
+    elif case['_k'] in ('text', 'edit'):
         for m in re.finditer(r'[\t;]\s*([^=;\t\n]*?)\s*=', case['t']):
             keys.add(pct_decode(m.group(1)))
-    return {'key_in_reserved_set': bool(keys & ATTR_RESERVED), 'kind': case['_k']}
+    firstloc = False
+    if case['_k'] in ('obj', 'text', 'edit') and isinstance(got, list) and _ckey(case) not in _DISAGREED:
+        try:
+            nonnorm = any(f[2][0][3] is not None for f in got[0])
+            firstloc = bool(nonnorm and _spec(case, got, False) is not None and _spec(case, got, True) is None)
+        except Exception:
+            firstloc = False
+    return {'key_in_reserved_set': bool(keys & ATTR_RESERVED), 'kind': case['_k'], 'firstloc_overrides': firstloc}
 
 
 def python_snippet(case):
@@ -716,6 +784,8 @@ def python_snippet(case):
         return ("import io\nfrom sugar import read_fts\nt = %r\nx = read_fts(io.StringIO(t), fmt='gff')\nw1 = x.tofmtstr('gff')\n"
                 "x1 = read_fts(io.StringIO(w1), fmt='gff')\nw2 = x1.tofmtstr('gff')\nw3 = read_fts(io.StringIO(w2), fmt='gff').tofmtstr('gff')\n"
                 "print(w1); print(w2); print(w1 == w2, w2 == w3)\nfor ft in x1: print(ft, [l._meta for l in ft.locs])" % case['t'])
+    if case['_k'] == 'edit':
+        return ("import io, sys; sys.path.insert(0, '/verif/tools')\nfrom props.c02 import impl\ncase = %r\nfor part in impl(case): print(part)" % (case,))
     if case['_k'] == 'obj':
         return ("import io, sys; sys.path.insert(0, '/verif/tools')\nfrom sugar import read_fts\nfrom props.c02 import build_fts, obs_fts\n"
                 "x = build_fts(%r)\nw1 = x.tofmtstr('gff'); print(w1)\nx1 = read_fts(io.StringIO(w1), fmt='gff'); print(obs_fts(x)); print(obs_fts(x1))\n"
@@ -739,9 +809,10 @@ LEVEL_NOTE = ('Proved (all closed under the global context): unquote(quote s) = 
               'combination of present/absent columns; LocationTuple output is a sorted permutation and idempotent; one line per location and '
               'read(write x) has one feature per feature with the same ordered locations; second write byte-identical and effective '
               'attributes kept (main theorem); any two of start/stop/len recover the range for any column selection and order. '
-              'Refuted with witnesses and excluded from the round-trip domain (rt_C02): features whose first 5\'->3\' location has attributes of '
-              'its own (one cycle moves them to the feature level: C02_firstloc_overrides_refuted; pending fix) and location-level '
-              'source (writer repeats the first line\'s source: C02_loc_source_refuted; pending fix). Only tested, not proved: the third write '
+              'Refuted with a witness and excluded from the theorems\' domain (rt_C02), but still generated and checked by the oracle: features '
+              'whose first 5\'->3\' location has attributes of its own (one cycle moves them to the feature level: '
+              'C02_firstloc_overrides_refuted; open finding F39, reported as KNOWN-FINDING only when it is the sole failure of a case '
+              'and model and code agree). Per-line source (F38, fixed in 3e14524) is inside the domain: C02_loc_source_kept. Only tested, not proved: the third write '
               'equals the second for arbitrary lists without neighbouring features of one (ID, type, seqid); reader robustness on foreign text (blanks, lower-case escapes, '
               'comments, ##FASTA); dispatch read_fts/write_fts; everything pandas does. Trusted: Coq kernel/vm_compute, tools/gens/c02.py, the '
               'correspondence harness, CPython str/int/float/dict/sorted, urllib quote/unquote on ASCII. Domain: ASCII fields; keys not '
